@@ -26,6 +26,20 @@ reg(
     "DESIGN.md section 4 C20",
 )
 
+reg(
+    "C11",
+    "TLA+ R-spec of the register file as bit-vectors (Registers.tla: views as functions of the raw bit sets; RegFile.tla: one action per public "
+    "operation, refusals and read-only operations as identity steps); TLC model-checks the lemmas, generates behaviours (exhaustive to depth 2 on a "
+    "tiny layout, -simulate on generated layouts), each behaviour is replayed on a real Registers object and the logged projection of the real state "
+    "is validated step by step by TLC (RegFileTrace)",
+    "Model checking of the semantics within small bounds (lemmas LastWriteWins, Independent, ViewsConsistent, Frozen) + every generated behaviour "
+    "executed on the real object and accepted/rejected by TLC. Exhaustive for all 2-step histories over the tiny layout's action alphabet; sampled "
+    "(seeded) for 12..16-step histories on layouts with widths up to 512 bits, groups, reversed byte/sub-register order, enums, SHIFT_RIGHT.",
+    "Trusted: TLC, the projection code in harness/c11.py (reads raw values / field values / enum names through the public getters). Hidden registers, "
+    "alternative widths and non-zero reset values of SHIFT_RIGHT fields are outside the generated layouts.",
+    "DESIGN.md section 4 C11",
+)
+
 NOT_YET = {
 }
 
